@@ -131,9 +131,9 @@ def run(tier, seed):
     c = core.Check("C15", tier, seed)
     gen_st = core.regen()
     b = core.build(PROP_FILE)
-    c.cov["translator"] = {k: v for k, v in gen_st.items() if k in ("GenRunner", "GenHarvest")}
+    c.cov["translator"] = {k: v for k, v in gen_st.items() if k in ("GenRunner", "GenHarvest", "GenLabel")}
     c.cov["build"] = {"ok": b["ok"], "failed_file": b["failed_file"], "wall_s": round(b.get("wall_s", 0), 1)}
-    for u in ("GenRunner", "GenHarvest"):
+    for u in ("GenRunner", "GenHarvest", "GenLabel"):
         if u in gen_st and not gen_st[u]["ok"]:
             c.obligation_broken(f"translator {u}", gen_st[u]["detail"])
     if not b["ok"]:
